@@ -142,6 +142,20 @@ def r16_2(ctx):
     zidx = [i for i, st in enumerate(body) if is_zguard(st)]
     ctx.check(bool(zidx) and zidx[0] < first_ret, "Stage.der rejects expressions depending on algebraic variables", detail="algebraic variable treated as constant in time (der(z) = 0)",
               expected="top-level `if depends_on(expr, self.z): raise` before any return", found="guard at statement %s, first return in statement %d" % (zidx, first_ret), fi=f)
+    # every symbol of the expression is either differentiated or known to be constant in time: anything else must raise
+    sym_guards = []
+    for l in body[:first_ret]:
+        if isinstance(l, ast.For) and any(isinstance(x, ast.Raise) for x in ast.walk(l)):
+            it = ast.unparse(l.iter)
+            if it in ("symbols", "ca.symvar(%s)" % expr, "symvar(%s)" % expr):
+                tests = " ".join(ast.unparse(i.test) for i in ast.walk(l) if isinstance(i, ast.If))
+                sym_guards.append(tests)
+    ok_off = any("_offsets" in t for t in sym_guards)
+    ok_unknown = any("_meta" in t and "not in" in t for t in sym_guards)
+    ctx.check(ok_off, "Stage.der rejects next/prev/offset operands", detail="a shifted operand is treated as a constant in time: der(next(x) - x) = -der(x)",
+              expected="for s in symvar(expr): if s in self._offsets: raise", found=str(sym_guards), fi=f)
+    ctx.check(ok_unknown, "Stage.der rejects symbols that do not belong to the stage", detail="a foreign symbol (state of another stage) is treated as a constant: der(y) = 0 without an error",
+              expected="for s in symvar(expr): if s not in self._meta (nor a placeholder / signal): raise", found=str(sym_guards), fi=f)
     ctx.check(bool(idx) and idx[0] < first_ret, "Stage.der rejects expressions depending on controls on every path", detail="control treated as constant in time on some path",
               expected="top-level `if depends_on(expr, self.u): raise` before any return", found="guard at statement %s, first return in statement %d" % (idx, first_ret), fi=f)
     for cname, fld, cmp in (("AbstractSignal", "order", "self.derivative is None"),):
